@@ -377,6 +377,8 @@ def _callback_rule(repo, L, cb, finder):
     ok4 = True
     why4 = ""
     n_rec = 0
+    extra_conds = []  # (condition text, truth on the path, did the path record?) for conditions other than the overlap test
+    by_pred = {}
     for pth in ps:
         conds = [(e.node, e.val) for e in pth.events if e.kind == "cond"]
         appends = [e.node for e in pth.events if e.kind == "stmt" and isinstance(e.node, ast.Expr) and isinstance(e.node.value, ast.Call) and isinstance(e.node.value.func, ast.Attribute) and e.node.value.func.attr in ("append", "add")]
@@ -401,12 +403,18 @@ def _callback_rule(repo, L, cb, finder):
                 else:
                     ok4, why4 = False, f"overlap test '{norm(c)}' does not compare the two callback arguments"
             else:
-                ok4, why4 = False, f"recording depends on an extra condition '{norm(t)}'"
+                extra_conds.append((norm(t), val, bool(appends)))
         if pred_true is None and conds == []:
             if appends:
                 ok4, why4 = False, "pair recorded unconditionally"
             else:
                 ok4, why4 = False, "no overlap test in the callback"
+        elif pred_true is None:
+            # a path that leaves (or records) on some other condition before the overlap test is reached
+            if appends:
+                ok4, why4 = False, f"a pair is recorded on a path that never consults overlaps() ({pth.describe()[:80]})"
+            else:
+                raise AnalysisError(f"{cb.short}: a path leaves the comparison callback on another condition before overlaps() is consulted ({pth.describe()[:80]}): whether pairs are lost is not decided")
         elif pred_true is True:
             n_rec += 1
             if len(appends) != 1:
